@@ -233,7 +233,11 @@ func legalHeaderByte(b byte) bool {
 func shouldEscape(b byte) bool {
 	// url.PathUnescape() returns an error if any '%' is not followed by two
 	// hexadecimal digits, so we'll intentionally encode it.
-	return !legalHeaderByte(b) || b == '%'
+	//
+	// Header names are case-insensitive: net/http canonicalises them and the
+	// apiserver lower-cases the name before unescaping the key, so an upper
+	// case letter only survives %-encoded.
+	return !legalHeaderByte(b) || b == '%' || ('A' <= b && b <= 'Z')
 }
 
 func headerKeyEscape(key string) string {
